@@ -32,7 +32,7 @@ pub fn check_ins(
     agg: &mut FailAgg,
     core: bool,
     what: &str,
-    sigf: &dyn Fn(&str) -> String,
+    sigf: &dyn Fn(&str) -> Option<String>,
 ) -> CaseOut {
     let labels = b.labels.clone();
     let cx = Ctx { labels: &labels };
@@ -55,8 +55,13 @@ pub fn check_ins(
     match b.judge(&obs, &post, &outs, &fo) {
         Ok(alt) => CaseOut { ok: true, alt, obs, post },
         Err(m) => {
+            let mut reported = false;
             for comp in &m.components {
-                let sig = sigf(comp);
+                let sig = match sigf(comp) {
+                    Some(s) => s,
+                    None => continue,
+                };
+                reported = true;
                 let key = fnv64(sig.as_bytes());
                 let corehash = if core {
                     let mut parts: Vec<u64> = vec![fnv64(line.as_bytes()), b.salt as u64];
@@ -90,7 +95,7 @@ pub fn check_ins(
                     )
                 });
             }
-            CaseOut { ok: false, alt: "", obs, post }
+            CaseOut { ok: !reported, alt: if reported { "" } else { "ignored-components-only" }, obs, post }
         }
     }
 }
